@@ -222,11 +222,14 @@ impl Scenario for HandoffSc {
       name.insert(f - 1, "unsc");
       name.insert(f, "fin");
       let serial = f - 2;
-      // `new_observer` is the only writer of `serial`; the first slot read of that thread afterwards is
-      // `inner_subscribe`'s `is_subscribed()` on the fresh observer: its fn_next
+      // `new_observer` is the only writer of `serial`; afterwards that thread re-checks the SUBSCRIBER
+      // (reads of sN/sE/sC, already named) and, if it is dead, write-clears the fresh observer's slots; its
+      // first READ of a function slot that is not the subscriber's is `inner_subscribe`'s `is_subscribed()`
+      // on the fresh observer: its fn_next
       if let Some(p) = ev.iter().position(|e| e.kind == "acq_w" && e.obj == serial) {
         let t = ev[p].tid;
-        if let Some(e) = ev[p..].iter().find(|e| e.tid == t && e.kind == "acq_r" && fw(&e.site)) {
+        let known = name.clone();
+        if let Some(e) = ev[p..].iter().find(|e| e.tid == t && e.kind == "acq_r" && fw(&e.site) && !known.contains_key(&e.obj)) {
           name.insert(e.obj, "uN");
           name.insert(e.obj + 1, "uE");
           name.insert(e.obj + 2, "uC");
